@@ -95,6 +95,47 @@ def replay (cfg : Cfg) (v : Bool) (s : State) : List (Nat × Record) → Option 
 def rootList (owner : Nat) (opts : Option Nat) : AclList :=
   { ids := [0], state := applyRoot owner opts, stored := [0], log := [] }
 
+/-! ### `loadRecords`: order-index scan with fallback to the PrevId walk (list.go) -/
+
+/-- a stored record as `build` sees it after `unmarshalForState` verified it: id, PrevId
+(`none` = the root's empty PrevId), decoded body (`none` for the root) -/
+structure Item where
+  id   : Nat
+  prev : Option Nat
+  body : Option Record
+deriving DecidableEq, Repr, Inhabited
+
+/-- the PrevId cross-check of `isContiguousChain` -/
+def linked : List Item → Bool
+  | a :: b :: t => b.prev == some a.id && linked (b :: t)
+  | _ => true
+
+/-- `isContiguousChain(records, rootId, head)` -/
+def contiguous (l : List Item) (rootId head : Nat) : Bool :=
+  match l.head?, l.getLast? with
+  | some f, some z => f.id == rootId && z.id == head && linked l
+  | _, _ => false
+
+/-- `loadRecordsByPrevId`: from `head` follow PrevId with `storage.Get` until the empty PrevId;
+`none` = a `Get` failed (or the chain is longer than the fuel) -/
+def walkUp (get : Nat → Option Item) : Nat → Nat → Option (List Item)
+  | 0, _ => none
+  | fuel + 1, id =>
+    match get id with
+    | none => none
+    | some it =>
+      match it.prev with
+      | none => some [it]
+      | some p => (walkUp get fuel p).map fun l => l ++ [it]
+
+/-- `loadRecords`: the order-index scan (`none` = it returned an error) is used only if it is the
+exact head→root chain; otherwise the authoritative PrevId walk -/
+def loadRecords (scan : Option (List Item)) (walk : Option (List Item)) (rootId head : Nat) :
+    Option (List Item) :=
+  match scan with
+  | some l => if contiguous l rootId head then some l else walk
+  | none => walk
+
 /-! ### the keep-only-ours partial decode (`keepidentity.go`, as a projection of the decoded record) -/
 
 /-- `filterAccountKeys`: keep only the observer's own entry -/
